@@ -142,6 +142,14 @@ fn judge(exp: &[Found], act: &[Found], tree_keys: &BTreeSet<Key>) -> Vec<(String
     for a in act { if !seen.insert(a.coord.key()) { out.push(("C19 resolve: the list contains one artifact twice".into(), a.coord.show())); break; } }
     let ek: BTreeMap<Key, &Found> = exp.iter().map(|f| (f.coord.key(), f)).collect();
     let ak: BTreeMap<Key, &Found> = act.iter().map(|f| (f.coord.key(), f)).collect();
+    // an entry that differs from an expected one only in the classifier its type implies
+    let mut ek = ek; let mut ak = ak;
+    let stray: Vec<(Key, Key)> = ak.keys().filter(|k| !ek.contains_key(*k)).filter_map(|k| {
+        let want = Key { classifier: implied_classifier(&k.type_).map(|c| c.to_string()), ..k.clone() };
+        (implied_classifier(&k.type_).is_some() && want != *k && ek.contains_key(&want) && !ak.contains_key(&want)).then(|| (k.clone(), want))
+    }).collect();
+    if let Some((got, want)) = stray.first() { out.push(("C19 resolve: an entry whose type implies a classifier is listed without it (or with another one)".into(), format!("{got:?} instead of {want:?}"))); }
+    for (got, want) in stray { ak.remove(&got); ek.remove(&want); }
     for (k, f) in &ek { if !ak.contains_key(k) { out.push(("C19 resolve: an artifact the rules select is missing from the list".into(), f.coord.show())); break; } }
     for (k, f) in &ak {
         if !ek.contains_key(k) {
@@ -471,6 +479,9 @@ fn canaries() {
     if !sig(vec![exp[0].clone(), f("B", "1", Compile, 0), exp[2].clone()]).contains("expected runtime, observed compile") { bad("scope not flagged"); }
     if !sig(vec![exp[0].clone(), exp[1].clone(), f("C", "2", Runtime, 0)]).contains("another repository") { bad("repository not flagged"); }
     if !sig(vec![exp[0].clone(), exp[1].clone(), exp[2].clone(), exp[1].clone()]).contains("twice") { bad("duplicate not flagged"); }
+    let tj = |c: Option<&str>| Found { coord: Coord { group: g.into(), artifact: "T".into(), version: "1".into(), classifier: c.map(|c| c.into()), type_: "test-jar".into() }, scope: Compile, repo: 0 };
+    let s2 = judge(&[exp[0].clone(), tj(Some("tests"))], &[exp[0].clone(), tj(None)], &keys).into_iter().map(|(s, _)| s).collect::<Vec<_>>().join(" | ");
+    if !s2.contains("implies a classifier") || s2.contains("missing") { bad(&format!("missing implied classifier not flagged as such: {s2}")); }
     // --- layout
     if pom_url("https://h/m2", &Gav::new("org.a.b", "x-y", "1.0")) != "https://h/m2/org/a/b/x-y/1.0/x-y-1.0.pom" || pom_url("https://h/m2/", &Gav::new("g", "a", "2")) != "https://h/m2/g/a/2/a-2.pom" { bad("repository layout"); }
 }
